@@ -43,7 +43,7 @@ def cases(draw, tier="quick"):
     trip = draw(st.lists(st.tuples(st.integers(0, m.n - 1), st.integers(0, m.n - 1), S.histories(m.n, max_len=8)),
                          min_size=1, max_size=3))
     return {"spec": spec, "base": base, "triples": [[a, b, list(h)] for a, b, h in trip],
-            "seed": draw(st.integers(0, 2 ** 31))}
+            "derive_ord": S.chance(draw, 0.3), "seed": draw(st.integers(0, 2 ** 31))}
 
 
 def fixed_cases(tier):
@@ -60,13 +60,15 @@ def fixed_cases(tier):
 
 def run_case(case):
     out = J.Outcome()
-    spec = case["spec"]
+    spec = dict(case["spec"])
+    if case.get("derive_ord"):
+        spec["derive_ord"] = True
     m = M.RefEnum(spec)
     rnd = J.case_rng(case)
     triples = [(a, b, h) for a, b, h in case["triples"]]
     for (i, j) in C.all_pairs_or_sample(m, rnd):
         sub = len(m.range_values(i, j))
-        triples.append((i, j, ["l"] + C.rand_history(rnd, sub, max_len=min(2 * sub + 2, 10))))
+        triples.append((i, j, ["l"] + C.rand_history(rnd, sub, max_len=min(2 * sub + 2, 10), ord_ok=bool(case.get("derive_ord")))))
     sc = E.Script()
     modules = []
     for k, (name, ov) in enumerate(mode_variants(m)):
